@@ -320,6 +320,10 @@ func execScript(s *scriptScn) *scriptObs {
 			rc := recs[side]
 			r = bounded(func() actRes { return writeOnce(rc, b) })
 		case "listen":
+			// Open first: Listen wraps the very connection Open returns for the id
+			if c0, err := muxes[side].Open(multiplex.ConnID(a.ID)); err == nil {
+				conns[side][a.ID] = c0
+			}
 			l, err := muxes[side].Listen(multiplex.ConnID(a.ID))
 			if err != nil {
 				r = classify(err)
@@ -340,10 +344,10 @@ func execScript(s *scriptScn) *scriptObs {
 				return actRes{Kind: "ok"}
 			})
 		case "lconnread":
-			// the connection the listener wraps is the one Open returns for the id
-			c2, err := muxes[side].Open(multiplex.ConnID(a.ID))
-			if err != nil {
-				r = classify(err)
+			c2 := conns[side][a.ID]
+			if c2 == nil {
+				r = actRes{Kind: "none", Err: "harness: no connection"}
+				o.Fail = "lconnread without listen"
 			} else if a.N == 1 {
 				// the listener was never closed: the connection must still be usable (a Read blocks)
 				_, returned := background(func() actRes { return readOnce(c2) })
